@@ -322,6 +322,31 @@ func runC01(c *h.Ctx) {
 			}
 		}
 	}
+	// datetime items of different types compared in both orders under WithTZ
+	// in several context zones: instants within a zone offset of a midnight
+	dts := []string{"2024-06-14", "2024-06-13", "2024-06-14T00:00:00", "2024-06-13T20:00:00+00:00", "2024-06-14T03:00:00+00:00", "2024-06-13T14:30:00+00:00", "2024-06-14T07:59:59-08:00", "2024-06-13T18:30:00+00:00",
+		"2024-06-14T00:00:00+13:45", "12:00:00", "12:00:00+05:30", "2024-06-13T23:59:59.5"}
+	for ai, a := range dts {
+		for bi, b := range dts {
+			for zi, zone := range []string{"", "UTC", "+05:30", "-08:00", "+13:45"} {
+				k++
+				if !c.Mine(k) {
+					continue
+				}
+				doc := fmt.Sprintf(`[%q,%q]`, a, b)
+				for oi, op := range []string{"==", "<", ">=", "!="} {
+					forms := []string{"$[0].datetime() " + op + " $[1].datetime()", "$ ? (@[0].datetime() " + op + " @[1].datetime())", "($[0].datetime() " + op + " $[1].datetime()) is unknown"}
+					txt := forms[(ai+bi+zi+oi)%3]
+					ec, err := CaseFrom(h.Case{Path: txt, Doc: doc, Vars: stdVars, TZ: zone != "" || (ai+bi)%2 == 0, Zone: zone, Silent: (ai+oi)%5 == 0})
+					if err != nil {
+						c.Count("gen.unparsable", 1)
+						continue
+					}
+					checkC01(c, ec)
+				}
+			}
+		}
+	}
 	c.Count("harvested.paths", int64(len(harvestedPaths())))
 	c.Count("gen.rejected-by-parser", int64(eg.Bad))
 }
